@@ -51,6 +51,9 @@ def cases(tier, seed):
     out = []
     for k, first in enumerate(ALPHA):
         out.append(dict(name="set_lists_starting_with_%s" % first.replace("[]", "brackets"), kind="set", first=k, tier=tier))
+        if tier != "quick":
+            # the quick tier's four-token shapes [key v v v] / [key v key v] draw their values from a larger value alphabet
+            out.append(dict(name="set_value_shapes_starting_with_%s" % first.replace("[]", "brackets"), kind="set", first=k, tier="quick"))
     out.append(dict(name="reset_subsets", kind="reset"))
     out.append(dict(name="upgrade_keeps_user_values", kind="upgrade"))
     out.append(dict(name="merge_json_soft_hard", kind="mergejson"))
